@@ -3,6 +3,27 @@ import GB.C12.Spec
 namespace GB.C12
 open GB GB.Proto
 
+/-- Margins for the wall-clock observation (ms): the call may end up to `lateMargin` after the deadline
+    (scheduling, connection teardown) and — because client and bridge clocks start a few ms apart — up to
+    `earlyMargin` before it; the target may see the deadline `skew` ms later than the client's start + timeout
+    (the time the request needed to reach the bridge). -/
+def lateMargin : Int := 600
+def earlyMargin : Int := 40
+def skew : Int := 150
+
+/-- C12 enforcement clauses judged on one observed call. -/
+def judgeDeadline (entry shape : String) (toMs : Nat) (elapsed tdl closed : Int) (outcome : String) : String :=
+  let to : Int := toMs
+  if outcome ≠ "deadline" then s!"VIOL deadline-outcome entry={entry} shape={shape} outcome={outcome}"
+  else if elapsed < to - earlyMargin then s!"VIOL deadline-early entry={entry} shape={shape} elapsed={elapsed} timeout={to}"
+  else if elapsed > to + lateMargin then s!"VIOL deadline-late entry={entry} shape={shape} elapsed={elapsed} timeout={to}"
+  else if tdl == -2 then s!"VIOL target-never-called entry={entry} shape={shape}"
+  else if tdl == -1 then s!"VIOL target-no-deadline entry={entry} shape={shape}"
+  else if tdl > to + skew then s!"VIOL target-later-deadline entry={entry} shape={shape} tdl={tdl} timeout={to}"
+  else if shape ≠ "unreachable" && (closed < 0 || closed > to + lateMargin) then
+    s!"VIOL outgoing-not-closed-in-time entry={entry} shape={shape} closed={closed} timeout={to}"
+  else s!"OK nt b={entry}-{shape}"
+
 /-- `dec <hex> => none | some:<int>` -/
 def handle : Handler
   | ["dec", hx], [out] =>
@@ -18,6 +39,13 @@ def handle : Handler
       if out ≠ sp then s!"VIOL decode impl={out} spec={sp} model={m}"
       else if out ≠ m then s!"DIFF model={m}"
       else s!"OK{nt} {br}"
+  | ["dl", entry, shape, toS], [el, oc, tdl, cl] =>
+    -- timed end-to-end observation (area c12e2e): `dl <entry> <shape> <timeout ms> => elapsed=<ms> outcome=<..> tdl=<ms> closed=<ms>`
+    let num (s : String) : Option Int := match s.splitOn "=" with | [_, v] => v.toInt? | _ => none
+    match toS.toNat?, num el, num tdl, num cl, oc.splitOn "=" with
+    | some to, some e, some td, some c, [_, outcome] =>
+      judgeDeadline entry shape to e td c outcome
+    | _, _, _, _, _ => "BAD c12 dl fields"
   | _, _ => "BAD c12 line"
 
 end GB.C12
